@@ -6,6 +6,16 @@ def E(name, src, model=None, quick=None, thorough=None, **kw):
     return d
 
 PROPS = {
+    "C01": dict(
+        lean_props=["H4.Props.C01"],
+        engines=[
+            E("elem", "e_elem.c", model="elem", quick=dict(cases=1200, chunk=40), thorough=dict(cases=20000, seeds=8, chunk=100), wrap=True),
+        ],
+        trusted_base=["directory encoding on disk (DD blocks, tag tree) is represented by its extents only: C12/C02",
+                      "external-file, compressed and chunked elements are not part of this engine (C03/C04/C05)",
+                      "stdio interposition (ld --wrap) used by the engine for the uninitialised-byte regression oracle"],
+        assumptions=["stdio stream = byte array, a gap created by writing past the end reads as zeros; single-threaded; all offsets and lengths within int32 (the model is unbounded)"],
+    ),
     "C12": dict(
         lean_props=["H4.Props.C12"],
         engines=[
@@ -57,7 +67,7 @@ PROPS = {
                       "DFKconvert modelled as per-element copy / byte reversal from the generated table (C06)"],
         assumptions=["caller supplies distinct, sufficiently large in/out buffers (the C routine documents no in-place support)",
                      "region part: little-endian host; pixel_mem_size = pixel_disk_size for every number type (generated sizes); no int32 overflow in xdim*ydim*pixel_size",
-                     "compressed (non-chunked) images are tied on the supported path only: one first write, close, then reads (other paths: known findings gr-comp:*)"],
+                     "compressed (non-chunked) images are tied on every path (reads and further writes in the creating session, partial rewrites after reopen)"],
     ),
     "C07": dict(
         lean_props=["H4.Props.C07"],
@@ -172,7 +182,7 @@ PROPS = {
         trusted_base=["the traversal / copy glue of hrepack (list_vg, copy_sds data loop, copy_gr, copy_vs, gen_dim, annotation copying) is not modelled: it is checked on the implementation by the API-level content comparator of harness/toolgen.h (independent of hdiff)",
                       "what SDsetchunk/SDsetcompress/GRsetchunk/GRsetcompress leave behind for SDgetchunkinfo/SDgetcompinfo is modelled by `chunkedLayout` (3 lines) and tied by the `decide` lines"],
         assumptions=["object names in options are not empty and contain no ',' (an empty name makes parse_comp read an uninitialised obj_list entry); at most 31 'x' in a -c value (chunk_lengths[H4_MAX_VAR_DIMS] of the caller is not bounded by the parser); option-file tokens shorter than 10 characters (read_info: fscanf %s into stype[10])",
-                     "JPEG (lossy, 8-bit images only) and SZIP (not built) requests are covered by the option-code tie only, not by runs of the binary; at most 8 chunks per dimension are requested (a file has 65535 reference numbers)"],
+                     "JPEG (lossy, 8-bit images only) and SZIP (not built) requests are covered by the option-code tie only, not by runs of the binary; no object is asked to have more than 4096 chunks (a file has 65535 reference numbers, one per chunk: beyond that SDendaccess / GRwriteimage fail at the format limit whatever hrepack decides; copy_sds's own 'maximum number of chunks' guard compares with INT_MAX and never triggers); such option vectors are tied at option level only"],
     ),
     "C19": dict(
         lean_props=["H4.Props.C19"],
@@ -197,14 +207,4 @@ PROPS = {
 
 # merged but not yet claimed (waiting for the model to follow fix: commits in /repo); runnable with bin/check, not in MANIFEST
 PENDING = {
-    "C01": dict(
-        lean_props=["H4.Props.C01"],
-        engines=[
-            E("elem", "e_elem.c", model="elem", quick=dict(cases=1200, chunk=40), thorough=dict(cases=20000, seeds=8, chunk=100), wrap=True),
-        ],
-        trusted_base=["directory encoding on disk (DD blocks, tag tree) is represented by its extents only: C12/C02",
-                      "external-file, compressed and chunked elements are not part of this engine (C03/C04/C05)",
-                      "stdio interposition (ld --wrap) used by the engine for the uninitialised-byte regression oracle"],
-        assumptions=["stdio stream = byte array, a gap created by writing past the end reads as zeros; single-threaded; all offsets and lengths within int32 (the model is unbounded)"],
-    ),
 }
